@@ -94,6 +94,8 @@ def parse_kani_output(text):
             checks = int(m2.group(2))
         for fm in re.finditer(r'Failed Checks: ([^\n]+)\n\s*File: "([^"]+)", line (\d+), in ([^\n]+)', body):
             failed.append({'desc': fm.group(1).strip(), 'file': fm.group(2), 'line': int(fm.group(3)), 'fn': fm.group(4).strip()})
+        if status == 'failed' and ('CBMC timed out' in body or (not failed and not (m2 and int(m2.group(1)) > 0))):
+            status = 'engine'   # solver timeout / crash: undecided, never a violation
         tm = re.search(r'Verification Time: ([0-9.]+)s', body)
         unwind_fail = any('unwinding assertion' in f['desc'] for f in failed)
         playback = re.findall(r'```\n(.*?)```', body, re.S)
@@ -116,7 +118,8 @@ def run_harnesses(pid, tier, only=None):
     try:
         d, injected = prepare_scratch(pid)
         bad = [i for i in injected if i[2] != 'ok']
-        base_cmd = ['cargo', 'kani', '--lib', '-Z', 'function-contracts', '-Z', 'stubbing', '--output-format', 'terse']
+        base_cmd = ['cargo', 'kani', '--lib', '-Z', 'function-contracts', '-Z', 'stubbing', '--output-format', 'terse',
+                    '-Z', 'unstable-options', '--harness-timeout', '%ds' % (max(h.get('timeout_s', 300) for h in regs))]
         cmd = base_cmd + ['-j', str(min(8, len(regs)))]
         for h in regs:
             cmd += ['--harness', h['name']]
@@ -158,6 +161,9 @@ def run_harnesses(pid, tier, only=None):
                 if 'TIMEOUT' in text:
                     reason += ' [timeout]'
                 out.append(dict(base, status='engine-failure', reason=reason))
+                continue
+            if r['status'] == 'engine':
+                out.append(dict(base, status='engine-failure', reason='CBMC timed out or crashed: ' + r['body_tail'][-200:].replace('\n', ' ')))
                 continue
             if r['status'] == 'ok':
                 out.append(dict(base, status='ok', checks=r['checks'], solver_s=r['solver_s'], failures=[]))
